@@ -47,7 +47,7 @@ def run(tier, seed, t0, only=None, pid=PID, obj=OBJ, files=FILES, shapes=None):
                     tasks.append(dict(mod='vlib.trans', fn='family_obligations',
                                       kw=dict(shape=shape, moore=moore, plus_one=plus_one, objective=obj, which=grp,
                                               state_idx=None if part is None else [part]),
-                                      backend=be, timeout=1200 if tier == 'quick' else 6000,
+                                      backend=be, timeout=1200 if tier == 'quick' else 12000,
                                       name=f'{be}:{obj}-impl:{shape}:moore={moore}:plus_one={plus_one}:{grp[0]}'
                                            + ('' if part is None else f'@state{part}')))
     nmem = 96 if tier == 'quick' else 600
